@@ -109,6 +109,17 @@ def arithmetic_actions(has_P=True, has_d=False, scalars=SCALARS):
         st.sh["a"] = st.sh["a"].conj()
     acts.append(Action("a=a.conj()", conj))
 
+    def conj_ba(st):
+        # derive b from a and keep a alive
+        st.regs["b"] = st.regs["a"].conj()
+        st.sh["b"] = st.sh["a"].conj()
+    acts.append(Action("b=a.conj()", conj_ba))
+
+    def copy_ba(st):
+        st.regs["b"] = st.regs["a"].copy()
+        st.sh["b"] = st.sh["a"].copy()
+    acts.append(Action("b=a.copy()", copy_ba))
+
     def coeff_a(st):
         st.regs["a"].coeff = st.regs["a"].coeff * 0.5
         st.sh["a"] = st.sh["a"] * 0.5
@@ -143,6 +154,17 @@ def arithmetic_actions(has_P=True, has_d=False, scalars=SCALARS):
             st.regs["b"] = call(st.regs["P"].apply, st.regs["b"])
             st.sh["b"] = st.sh["P"] @ st.sh["b"]
         acts.append(Action("b=P.apply(b)", apply_P_b))
+
+        def apply_P_ab(st):
+            # derive b from a and keep a alive
+            st.regs["b"] = call(st.regs["P"].apply, st.regs["a"])
+            st.sh["b"] = st.sh["P"] @ st.sh["a"]
+        acts.append(Action("b=P.apply(a)", apply_P_ab))
+
+        def q_PO(st):
+            st.regs["Q"] = call(st.regs["P"].apply, st.regs["O"])
+            st.sh["Q"] = st.sh["P"] @ st.sh["O"]
+        acts.append(Action("Q=P.apply(O)", q_PO))
 
         def q_pdag(st):
             st.regs["Q"] = st.regs["P"].conj_trans()
